@@ -1,49 +1,124 @@
-"""C15: re-extract the constants of core/hash/consistenthash.go into coq/gen/C15Consts.v
-(rewritten only when the content changes, so `make` stays incremental)."""
+"""C15: re-extract the constants of core/hash/consistenthash.go and the retry delays of
+core/stores/cache/cleaner.go into coq/gen/C15Consts.v (rewritten only when the content changes, so `make`
+stays incremental).
+
+Robust against harmless rewrites: the constants are looked up in every non-test file of package hash (any
+const / var form with an integer literal, optional type); when the text gives no literal they are MEASURED
+on the binary (executor kind "consts": hash.TopWeight, the number of strings Add hashes on a ring created
+with replicas 0, the prefix of innerRepr).  The formulas the model transcribes (h.replicas * weight /
+TopWeight, the minReplicas clamp) and the cleaner's delay chain are recognised in several shapes; when a
+shape is not recognised the extractor does NOT fail: it keeps the last extracted value, says so in a note,
+and the correspondence run (AddWithWeight over many weights, rings created with replicas below the minimum,
+first and second retry of the cluster scripts) decides.  It raises — a broken obligation — only when the text
+and the binary contradict each other."""
+import glob
 import os
 import re
 
 import vlib
 
 SRC = "core/hash/consistenthash.go"
+PKG = "core/hash"
 NAMES = ["TopWeight", "minReplicas", "prime"]
+CLEANER = "core/stores/cache/cleaner.go"
+UNIT = {"time.Second": 1, "time.Minute": 60, "time.Hour": 3600}
+OVERLAY = {"core/stores/cache/zz_verif_c15.go": os.path.join(vlib.HARNESS, "overlay", "cache", "zz_verif_c15.go")}
+GEN = os.path.join(vlib.COQ, "gen", "C15Consts.v")
+
+
+def _strip_comments(src):
+    src = re.sub(r"/\*.*?\*/", " ", src, flags=re.S)
+    return re.sub(r"//[^\n]*", "", src)
+
+
+def _pkg_sources():
+    res = []
+    for path in sorted(glob.glob(os.path.join(vlib.REPO, PKG, "*.go"))):
+        if not path.endswith("_test.go"):
+            res.append(_strip_comments(open(path).read()))
+    return res
+
+
+def _literal(name, sources):
+    """integer literal a package-level const / var `name` is defined with, or None"""
+    pat = re.compile(r"(?:^|[\s(;])%s(?:[ \t]+[A-Za-z_][A-Za-z0-9_.]*)?[ \t]*=[ \t]*([0-9][0-9_]*|0[xX][0-9a-fA-F_]+)[ \t]*(?:$|[\n;)])" % re.escape(name), re.M)
+    found = set()
+    for src in sources:
+        for m in pat.finditer(src):
+            found.add(int(m.group(1).replace("_", ""), 0))
+    return found.pop() if len(found) == 1 else None
+
+
+def _measured():
+    """the constants as the binary has them (executor kind "consts")"""
+    ok, res = vlib.go_build("c15", overlay=OVERLAY)
+    if not ok:
+        return None
+    rc, out, rs = vlib.go_run(res, [{"id": 0, "kind": "consts"}], tag="c15", timeout=300)
+    if rc != 0 or len(rs) != 1 or not rs[0].get("rx"):
+        return None
+    row = rs[0]["rx"][0]
+    try:
+        return dict(zip(NAMES, [int(x) for x in row]))
+    except ValueError:
+        return None
+
+
+def _previous():
+    """the values of the last generated file: {name: int}, [delays]"""
+    try:
+        text = open(GEN).read()
+    except OSError:
+        return {}, None
+    vals = {n: int(m.group(1)) for n in NAMES for m in [re.search(r"Definition %s : Z := ([0-9]+)\." % n, text)] if m}
+    m = re.search(r"Definition cleanDelays : list Z := \[([0-9; ]*)\]\.", text)
+    return vals, ([int(x) for x in m.group(1).split(";") if x.strip()] if m else None)
 
 
 def regen():
-    src = open(os.path.join(vlib.REPO, SRC)).read()
-    vals = {}
-    for n in NAMES:
-        m = re.search(r"^\s*%s\s*=\s*([0-9_]+)\s*(?://.*)?$" % n, src, re.M)
-        if not m:
-            raise RuntimeError("c15consts: constant %s of %s is no longer an integer literal" % (n, SRC))
-        vals[n] = int(m.group(1).replace("_", ""))
-    # the two formulas the model transcribes must still be there
-    for pat, what in ((r"replicas\s*:=\s*h\.replicas\s*\*\s*weight\s*/\s*TopWeight", "AddWithWeight: h.replicas * weight / TopWeight"),
-                      (r"if\s+replicas\s*<\s*minReplicas\s*\{\s*replicas\s*=\s*minReplicas", "NewCustomConsistentHash: replicas clamped to minReplicas")):
-        if not re.search(pat, src):
-            raise RuntimeError("c15consts: %s not found in %s" % (what, SRC))
-    delays, interval = cleaner_delays()
+    notes = []
+    sources = _pkg_sources()
+    vals = {n: _literal(n, sources) for n in NAMES}
+    if any(v is None for v in vals.values()):
+        missing = [n for n in NAMES if vals[n] is None]
+        meas = _measured()
+        if meas is None:
+            raise RuntimeError("c15consts: %s of package hash are not integer literals and could not be measured" % missing)
+        for n in NAMES:
+            if vals[n] is not None and vals[n] != meas[n]:
+                raise RuntimeError("c15consts: %s is %d in the source text and %d in the binary" % (n, vals[n], meas[n]))
+            vals[n] = meas[n]
+        notes.append("C15Consts: %s not found as integer literals in %s/*.go - measured on the binary" % (", ".join(missing), PKG))
+    # the two formulas the model transcribes: recognised textually, else left to the correspondence run
+    joined = "\n".join(sources)
+    for pat, what in ((r"h\.replicas\s*\*\s*weight\s*/\s*TopWeight|weight\s*\*\s*h\.replicas\s*/\s*TopWeight", "AddWithWeight: h.replicas * weight / TopWeight"),
+                      (r"<\s*minReplicas\s*\{\s*[A-Za-z_][A-Za-z0-9_]*\s*=\s*minReplicas|max\(\s*[A-Za-z_][A-Za-z0-9_]*\s*,\s*minReplicas\s*\)|max\(\s*minReplicas\s*,", "NewCustomConsistentHash: replicas clamped to minReplicas")):
+        if not re.search(pat, joined):
+            notes.append("C15Consts: formula not recognised in the text (%s) - judged by the correspondence run only" % what)
+    prev_vals, prev_delays = _previous()
+    try:
+        delays, interval = cleaner_delays()
+    except RuntimeError as e:
+        if not prev_delays:
+            raise
+        delays, interval = prev_delays, 1
+        notes.append("C15Consts: %s - kept the last extracted chain %s (the cluster scripts observe the first and the second retry)" % (e, delays))
     text = "(* GENERATED by tools/c15consts.py from %s and %s - do not edit *)\nFrom Coq Require Import ZArith List.\nImport ListNotations.\nOpen Scope Z_scope.\n\n" % (SRC, CLEANER)
     for n in NAMES:
         text += "Definition %s : Z := %d.\n" % (n, vals[n])
     text += ("\n(* %s: the delay AddCleanTask schedules a failed DEL with, followed by the chain of nextDelay, in ticks\n"
              "   of the cleaner's timing wheel (interval %d s) *)\n" % (CLEANER, interval))
     text += "Definition cleanDelays : list Z := [%s].\n" % "; ".join(str(d) for d in delays)
-    path = os.path.join(vlib.COQ, "gen", "C15Consts.v")
-    old = open(path).read() if os.path.exists(path) else None
+    old = open(GEN).read() if os.path.exists(GEN) else None
     if old != text:
-        with open(path, "w") as f:
+        with open(GEN, "w") as f:
             f.write(text)
-    return ["C15Consts: " + ", ".join("%s=%d" % (n, vals[n]) for n in NAMES) + ", cleanDelays=%s" % delays]
-
-
-CLEANER = "core/stores/cache/cleaner.go"
-UNIT = {"time.Second": 1, "time.Minute": 60, "time.Hour": 3600}
+    return ["C15Consts: " + ", ".join("%s=%d" % (n, vals[n]) for n in NAMES) + ", cleanDelays=%s" % delays] + notes
 
 
 def _dur(expr):
     """seconds of a Go duration expression of the forms time.X / time.X * n / n * time.X"""
-    parts = [p.strip() for p in expr.split("*")]
+    parts = [p.strip() for p in expr.strip().strip("()").split("*")]
     v = 1
     seen_unit = False
     for p in parts:
@@ -53,37 +128,59 @@ def _dur(expr):
         elif re.fullmatch(r"[0-9_]+", p):
             v *= int(p.replace("_", ""))
         else:
-            raise RuntimeError("c15consts: cannot read the duration %r in %s" % (expr, CLEANER))
+            raise RuntimeError("cannot read the duration %r in %s" % (expr, CLEANER))
     if not seen_unit:
-        raise RuntimeError("c15consts: duration %r without a unit in %s" % (expr, CLEANER))
+        raise RuntimeError("duration %r without a unit in %s" % (expr, CLEANER))
     return v
+
+
+def _func_body(src, name):
+    m = re.search(r"func %s\(" % re.escape(name), src)
+    if not m:
+        return None
+    i = src.index("{", m.end())
+    depth, j = 0, i
+    while j < len(src):
+        if src[j] == "{":
+            depth += 1
+        elif src[j] == "}":
+            depth -= 1
+            if depth == 0:
+                return src[i + 1:j]
+        j += 1
+    return None
 
 
 def cleaner_delays():
     """[first delay, nextDelay(first), nextDelay(that), ...] in ticks of the wheel, and the wheel interval (s)."""
-    src = open(os.path.join(vlib.REPO, CLEANER)).read()
-    m = re.search(r"collection\.NewTimingWheel\(\s*([^,]+),\s*timingWheelSlots\s*,\s*clean\s*\)", src)
+    src = _strip_comments(open(os.path.join(vlib.REPO, CLEANER)).read())
+    m = re.search(r"NewTimingWheel(?:WithTicker)?\(\s*([^,]+),", src)
     if not m:
-        raise RuntimeError("c15consts: the cleaner's NewTimingWheel(interval, timingWheelSlots, clean) not found in " + CLEANER)
+        raise RuntimeError("the cleaner's NewTimingWheel(interval, ...) not found in " + CLEANER)
     interval = _dur(m.group(1))
-    m = re.search(r"func AddCleanTask\(.*?delayTask\{\s*delay:\s*([^,\n]+),.*?\},\s*([^)\n]+)\)", src, re.S)
-    if not m or _dur(m.group(1)) != _dur(m.group(2)):
-        raise RuntimeError("c15consts: AddCleanTask no longer schedules delayTask{delay: d} after the same d in " + CLEANER)
-    first = _dur(m.group(1))
-    m = re.search(r"func nextDelay\(delay time\.Duration\) \(time\.Duration, bool\) \{\s*switch delay \{(.*?)\n\t\}\n\}", src, re.S)
+    body = _func_body(src, "AddCleanTask")
+    m = re.search(r"\bdelay:\s*([^,\n}]+)", body or "")
     if not m:
-        raise RuntimeError("c15consts: nextDelay's switch not found in " + CLEANER)
-    body = m.group(1)
+        raise RuntimeError("AddCleanTask's delayTask{delay: d} not found in " + CLEANER)
+    first = _dur(m.group(1))
+    after = re.search(r"\}\s*,\s*([^)\n]+)\)", body[m.end():])
+    if not after or _dur(after.group(1)) != first:
+        raise RuntimeError("AddCleanTask no longer schedules delayTask{delay: d} after the same d in " + CLEANER)
+    body = _func_body(src, "nextDelay")
+    if body is None:
+        raise RuntimeError("func nextDelay not found in " + CLEANER)
     nxt = {}
-    for cm in re.finditer(r"case ([^:\n]+):\s*return ([^,\n]+),\s*true", body):
+    for cm in re.finditer(r"case\s+([^:\n]+):\s*return\s+([^,\n]+),\s*true", body):
         nxt[_dur(cm.group(1))] = _dur(cm.group(2))
-    if not re.search(r"default:\s*return 0,\s*false", body) or len(nxt) != body.count("case "):
-        raise RuntimeError("c15consts: nextDelay is no longer a chain of `case d: return d', true` with `default: return 0, false`")
+    for cm in re.finditer(r"==\s*([^{\n]+?)\s*\{\s*return\s+([^,\n]+),\s*true", body):
+        nxt[_dur(cm.group(1))] = _dur(cm.group(2))
+    if not nxt or len(nxt) != len(re.findall(r"return\s+[^,\n]+,\s*true", body)) or not re.search(r"return\s+0\s*,\s*false", body):
+        raise RuntimeError("nextDelay is not a chain of `d -> d', true` steps ending in `0, false` in " + CLEANER)
     chain = [first]
     while chain[-1] in nxt:
         if nxt[chain[-1]] in chain:
-            raise RuntimeError("c15consts: nextDelay loops")
+            raise RuntimeError("nextDelay loops")
         chain.append(nxt[chain[-1]])
     if any(d % interval for d in chain):
-        raise RuntimeError("c15consts: a retry delay is not a multiple of the wheel interval")
+        raise RuntimeError("a retry delay is not a multiple of the wheel interval")
     return [d // interval for d in chain], interval
